@@ -309,10 +309,13 @@ def clock_guard(ctx, o):
             continue
         others = [a for a in par.args if a is not n]
         guarded = False
+        pe_has_bound = pt is not None and any(isinstance(x, ast.Name) and x.id == ps.bound for x in pt['args'])
         for a in others:
-            ax = ps.ex.expand(a, ps.cfg.node_containing(par))
+            ax = ps.ex.expand(a, ps.cfg.node_containing(par), stop={pt['name']} if pt else None)
             args = facts.flatten_lattice(ax, 'max') or [ax]
             if any(isinstance(x, ast.Name) and x.id == ps.bound for x in args) or any(match(f"self.{FWD['bound']}", x) for x in args):
+                guarded = True
+            if pe_has_bound and any(isinstance(x, ast.Name) and x.id == pt['name'] for x in args):
                 guarded = True
         fill_name = prog.func(FWD['fill']).name
         construct = par
